@@ -177,10 +177,10 @@ func run(c Case) ([]vk.Violation, vk.Info) {
 			}
 		}
 		if cy.DeltaLate != nil && !reflect.DeepEqual(cy.Delta.Series, cy.DeltaLate.Series) {
-			badAt(diffSnap(cy.Delta, cy.DeltaLate), "retained_output_changed", "data returned by the delta reader's collection %d changed after later measurements", k+1)
+			badAt(diffSnap(cy.Delta, cy.DeltaLate), "retained_output_changed", "data returned by the delta reader's collection %d (not written to by its owner) changed after later measurements / after the owner of a later output wrote over that output", k+1)
 		}
 		if cy.CumLate != nil && !reflect.DeepEqual(cy.Cum.Series, cy.CumLate.Series) {
-			badAt(diffSnap(cy.Cum, cy.CumLate), "retained_output_changed", "data returned by the cumulative reader's collection %d changed after later measurements", k+1)
+			badAt(diffSnap(cy.Cum, cy.CumLate), "retained_output_changed", "data returned by the cumulative reader's collection %d (not written to by its owner) changed after later measurements / after the owner of a later output wrote over that output", k+1)
 		}
 	}
 
@@ -260,6 +260,7 @@ func run(c Case) ([]vk.Violation, vk.Info) {
 
 	// ---- (1) synchronous sums and histograms: cumulative == running total of deltas ----
 	// ---- (4) synchronous gauges ----
+	racingCompared := map[streamKey]bool{} // streams recorded during a collection -> compared again in a later cycle
 	lastSeen := map[streamKey]int{}
 	gapThenBack := func(key streamKey, k int) bool {
 		l, ok := lastSeen[key]
@@ -295,8 +296,13 @@ func run(c Case) ([]vk.Violation, vk.Info) {
 			}
 			if d.kind == kGauge {
 				for _, set := range keys(cy.Recorded[i]) {
+					if cy.racing(i, set) {
+						continue // recorded while the readers were collecting: this cycle or the next
+					}
 					vals := cy.Recorded[i][set]
-					last := vals[len(vals)-1]
+					// one value; several when the stream's latest records were made by
+					// several goroutines at once: the last record of any of them
+					last := cy.lastCandidates(i, set)
 					gaugeRepeat = gaugeRepeat || len(vals) > 1
 					for _, rs := range both {
 						who, se := rs.who, rs.se
@@ -306,7 +312,7 @@ func run(c Case) ([]vk.Violation, vk.Info) {
 						}
 						if p == nil {
 							bad("gauge_missing", "collection %d: %s reader does not report %s set #%d although %v was recorded in the cycle", k+1, who, d.key, set, vals)
-						} else if !p.Val.eq(last) {
+						} else if !anyEq(last, p.Val) {
 							bad("gauge_last_value", "collection %d: %s reader reports %s set #%d = %v, last value recorded in the cycle is %v (cycle: %v)", k+1, who, d.key, set, p.Val, last, vals)
 						}
 					}
@@ -375,7 +381,7 @@ func run(c Case) ([]vk.Violation, vk.Info) {
 							}
 						}
 					}
-					if cy.Cum != nil && (cs == nil || cs.Pts[set] == nil) {
+					if cy.Cum != nil && (cs == nil || cs.Pts[set] == nil) && !cy.racing(i, set) {
 						bad("delta_without_cumulative", "collection %d: delta reader reports %s set #%d but the cumulative reader does not", k+1, d.key, set)
 					}
 				}
@@ -387,6 +393,17 @@ func run(c Case) ([]vk.Violation, vk.Info) {
 			for _, set := range keys(cs.Pts) {
 				p := cs.Pts[set]
 				r := tot[set]
+				if cy.racing(i, set) {
+					// measurements of this stream were made while the two readers were
+					// collecting: each landed before or after either collection. The
+					// deltas keep being accumulated; the comparison resumes with the
+					// next collection (by then both readers have seen all of them).
+					racingCompared[streamKey{d.key, set}] = false
+					continue
+				}
+				if _, was := racingCompared[streamKey{d.key, set}]; was {
+					racingCompared[streamKey{d.key, set}] = true
+				}
 				if r == nil || !r.any {
 					bad("cumulative_without_delta", "collection %d: cumulative reader reports %s set #%d, the delta reader never did", k+1, d.key, set)
 					continue
@@ -693,6 +710,58 @@ func run(c Case) ([]vk.Violation, vk.Info) {
 	info.ClassIf(burstAsync, "concurrent_collect_with_async_observations")
 	info.ClassIf(burstSync, "concurrent_collect_with_sync_records_in_cycle")
 	info.ClassIf(w.ambiguous, "concurrent_collect_order_ambiguous(interval+async clauses skipped)")
+	// --- concurrent records, and what the consumers wrote over ---
+	var crec, crec4, crecFirst, crecFirstEver, crecGauge bool
+	crecKinds := map[string]bool{}
+	scrD, scrC := 0, 0
+	scrThenReported := false // a stream is reported again by a reader after its consumer wrote over an earlier output of it
+	scribbledD, scribbledC := false, false
+	for _, cy := range w.cycles {
+		if (scribbledD && cy.Delta != nil && len(cy.Delta.Series) > 0) || (scribbledC && cy.Cum != nil && len(cy.Cum.Series) > 0) {
+			scrThenReported = true
+		}
+		scrD, scrC = scrD|cy.DeltaScr, scrC|cy.CumScr
+		scribbledD, scribbledC = scribbledD || cy.DeltaScr != 0, scribbledC || cy.CumScr != 0
+		for i := range cy.Volley {
+			for set, n := range cy.Volley[i] {
+				if n < 2 {
+					continue
+				}
+				crec, crec4 = true, crec4 || n >= 4
+				crecFirst = crecFirst || cy.VolleyFirst[i][set]
+				crecKinds[kindName[w.sdefs[i].kind]] = true
+				crecGauge = crecGauge || (w.sdefs[i].kind == kGauge && len(cy.GaugeLast[i][set]) >= 2)
+			}
+		}
+	}
+	var rcol, rcolCompared bool
+	for _, cy := range w.cycles {
+		for i := range cy.Racing {
+			rcol = rcol || len(cy.Racing[i]) > 0
+		}
+	}
+	for _, done := range racingCompared {
+		rcolCompared = rcolCompared || done
+	}
+	info.ClassIf(rcol, "records_while_both_readers_collect")
+	info.ClassIf(rcolCompared, "records_while_both_readers_collect:running_total_compared_at_a_later_collection")
+	crecFirstEver = w.firstEver
+	info.ClassIf(crec, "concurrent_records(one stream, >=2 goroutines)")
+	info.ClassIf(crec4, "concurrent_records(one stream, >=4 goroutines)")
+	info.ClassIf(crecFirst, "concurrent_first_measurements_of_a_set_in_the_cycle")
+	info.ClassIf(crecFirstEver, "concurrent_first_measurements_of_a_set_ever")
+	info.ClassIf(crecGauge, "gauge_last_value_is_one_of_several_goroutines_last")
+	for _, kn := range []string{"counter", "updown", "explicit_hist", "expo_hist", "gauge"} {
+		info.ClassIf(crecKinds[kn], "concurrent_records:"+kn)
+	}
+	for _, b := range []struct {
+		bit  int
+		name string
+	}{{scrBounds, "histogram_bounds"}, {scrCounts, "bucket_counts"}, {scrPoints, "data_points"}, {scrMetrics, "metrics"}, {scrScopes, "scope_metrics"}} {
+		info.ClassIf(scrD&b.bit != 0, "consumer_writes_over_delta_output:"+b.name)
+		info.ClassIf(scrC&b.bit != 0, "consumer_writes_over_cumulative_output:"+b.name)
+	}
+	info.ClassIf(scrThenReported, "reader_collects_again_after_its_output_was_written_over")
 	info.ClassIf(rmFresh, "rm:fresh(retained outputs re-read)")
 	info.ClassIf(rmOwn, "rm:reader_reuses_own_output")
 	info.ClassIf(rmPool, "rm:shared_pool_slot")
@@ -779,6 +848,15 @@ func run(c Case) ([]vk.Violation, vk.Info) {
 	info.ClassIf(spSync[2] || spObs[2], "attrs_spelled:split_over_two_options")
 	info.ClassIf(spSync[3] || spObs[3], "attrs_spelled:duplicate_key_overridden_by_later_option")
 	return vs, info
+}
+
+func anyEq(cands []num, v num) bool {
+	for _, c := range cands {
+		if c.eq(v) {
+			return true
+		}
+	}
+	return false
 }
 
 // burstLen is the number of cycles of the concurrent step cycle k belongs to.
